@@ -789,6 +789,105 @@ pub fn e4_scenarios(filter: &str) -> Vec<ConnScenario> {
     v
 }
 
+/// C08 on real TCP nodes (E4): the remote stops making progress while its socket stays up (its tasks are frozen), the
+/// local protocol asks for 300 substreams. yamux lets 256 streams be opened without acknowledgement and blocks the
+/// rest inside `open_stream()`. Every accepted request must still be answered exactly once (here: by the 5 s open
+/// timeout) — this exercises the timeout around the *whole* open in `transport/tcp/connection.rs`.
+fn frozen_remote_open_backlog_tcp(ctx: &mut Ctx) {
+    use crate::env::node::MonitorCmd;
+    let result = std::thread::spawn(|| -> Result<(usize, usize, usize), Viol> {
+        let rt = crate::env::driver::runtime_io(6);
+        rt.block_on(async {
+            let (_park_tx, park_rx) = std::sync::mpsc::channel::<()>();
+            let _parked = tokio::task::spawn_blocking(move || {
+                let _ = park_rx.recv();
+            });
+            let mut scn = sc("c08", 100_000, false, 0, vec![]);
+            scn.real_tcp = true;
+            let mut w = World::new();
+            let st = scn.setup(&mut w);
+            async fn settle(w: &mut World) {
+                loop {
+                    w.run_to_quiescence(1_000_000);
+                    if !e2::settle_io(w).await {
+                        break;
+                    }
+                }
+            }
+            settle(&mut w).await;
+            let _ = w.nodes[st.l].cmd.send(NodeCmd::Dial(st.peer_r));
+            settle(&mut w).await;
+            let _ = st.x.cmd.send(MonitorCmd::OpenSubstream(st.peer_r));
+            settle(&mut w).await;
+            let opened = |st: &St| st.x.log.lock().iter().filter(|e| matches!(e, Seen::SubstreamOpened { outbound: Some(_), .. })).count();
+            if opened(&st) != 1 {
+                return Err(Viol::new("machinery/backlog-setup", format!("the first substream did not open over TCP; X log {:?}", shorts(&st.x.log.lock()))));
+            }
+            // the remote stops: none of its tasks is scheduled any more, the kernel keeps its socket open
+            for t in w.nodes[st.r].tasks.clone() {
+                w.driver.frozen.insert(t);
+            }
+            // in batches, so that the connection task drains its command channel (capacity 256) in between
+            for _ in 0..3 {
+                for _ in 0..100 {
+                    let _ = st.x.cmd.send(MonitorCmd::OpenSubstream(st.peer_r));
+                }
+                settle(&mut w).await;
+            }
+            for _ in 0..12 {
+                tokio::time::advance(Duration::from_secs(1)).await;
+                settle(&mut w).await;
+            }
+            let log = st.x.log.lock().clone();
+            let asked: Vec<usize> = log.iter().filter_map(|e| if let Seen::OpenSubstreamResult { result: Ok(id), .. } = e { Some(*id) } else { None }).collect();
+            let mut answers: BTreeMap<usize, usize> = BTreeMap::new();
+            for e in &log {
+                match e {
+                    Seen::SubstreamOpened { outbound: Some(id), .. } => *answers.entry(*id).or_default() += 1,
+                    Seen::SubstreamOpenFailure { substream } => *answers.entry(*substream).or_default() += 1,
+                    _ => {}
+                }
+            }
+            let closed = log.iter().any(|e| matches!(e, Seen::Closed { .. }));
+            let unanswered: Vec<usize> = asked.iter().copied().filter(|id| !answers.contains_key(id)).collect();
+            let twice: Vec<usize> = answers.iter().filter(|(_, n)| **n > 1).map(|(id, _)| *id).collect();
+            if !twice.is_empty() {
+                return Err(Viol::new("c08/substream-answered-twice/tcp-backlog", format!("outbound substreams answered more than once: {twice:?}")));
+            }
+            if !unanswered.is_empty() && !closed {
+                return Err(Viol::new(
+                    "c08/substream-never-answered/tcp-backlog",
+                    format!(
+                        "remote frozen with its socket up, {} open requests accepted, 12 s later {} of them have neither SubstreamOpened nor SubstreamOpenFailure (first {:?}) and the connection was not reported closed",
+                        asked.len(), unanswered.len(), &unanswered[..unanswered.len().min(5)]
+                    ),
+                ));
+            }
+            Ok((asked.len(), answers.len(), w.driver.steps as usize))
+        })
+    })
+    .join();
+    match result {
+        Ok(Ok((asked, answered, steps))) => {
+            ctx.sub("frozen_remote_open_backlog_on_real_tcp", serde_json::json!({"open_requests_accepted": asked, "answered_exactly_once": answered, "driver_steps": steps, "held": true}));
+            ctx.cov_add("transitions", steps as u64);
+            ctx.cov_add("traces_validated_against_impl", 1);
+        }
+        Ok(Err(v)) => {
+            if v.signature.starts_with("machinery/") {
+                ctx.machinery_error(format!("{}: {}", v.signature, v.what));
+            } else {
+                ctx.violation(crate::report::Violation {
+                    signature: v.signature,
+                    what: v.what,
+                    replay: serde_json::json!({"engine": "scripted", "scenario": "backpressure_order_check"}),
+                });
+            }
+        }
+        Err(_) => ctx.machinery_error("TCP open-backlog scenario panicked"),
+    }
+}
+
 /// C07 on real TCP nodes (E4): a local **force close** while protocol X's event channel is full and stays full for 8 s of
 /// virtual time. `TcpConnection`'s ForceClose arm must still tell every protocol and the manager, exactly once, after X
 /// drains (the SimNet variant above ends the connection by cutting the carrier and exercises the mirror; this one
@@ -999,6 +1098,9 @@ pub fn run_filtered(ctx: &mut Ctx, filter: &'static str) {
     if filter == "c07" {
         backpressure_order_check(ctx);
         backpressure_force_close_tcp(ctx);
+    }
+    if filter == "c08" {
+        frozen_remote_open_backlog_tcp(ctx);
     }
     // ---- E4: the same programs on real TcpTransport / TcpConnection nodes over loopback sockets ----
     if filter == "c07" || filter == "c09" {
